@@ -1,7 +1,321 @@
-import JaqVerif.C08.Model
+/-
+  C08 — comparison is one consistent total order; equal values are interchangeable keys.
+
+  Theorems about the impl-model `JaqVerif/C08/Model.lean` (`cmp` = `impl Ord for Val`,
+  `numCmp` = `impl Ord for Num`, `sort` = `Vec::sort`, `feed`/`floatFeed` = the `Hasher` calls of
+  `impl Hash`), tied to `/repo/jaq-json/src/{lib,num,funs}.rs` and `/repo/jaq-std/src/lib.rs` by the
+  correspondence of `bin/check C08`.
+
+  Domain (the property's two side conditions, as decidable predicates of the model file):
+  `InDom m v` for one `m : Mode` shared by all values that are compared with each other =
+  `NaNFree v` ∧ the `BigVsFloatGuard` (mode `smallInts`: all integers within ±2^53; mode
+  `infFloats`: all floats infinite) ∧, in mode `infFloats` while finding F-08b is open, no integer
+  whose conversion to `f64` overflows (`NoHugeInt`; the witness below shows it is needed).
+
+  Proved without the switches of `Gen/C08Cfg.lean` being unfolded: every theorem holds for the
+  tree before and after the repairs of F-08 / F-08b; the two `_witness` theorems are stated under
+  the hypothesis that the repair is *not* in the tree.
+-/
+import JaqVerif.Lemmas.C08Hash
+import JaqVerif.Lemmas.C08Val
 
 namespace Jaq.C08
+open Jaq
 
-theorem placeholder : cmp .null .null = .eq := by decide
+/-! ## 1. One total preorder -/
+
+/-- what `InDom` says, in the property's words -/
+theorem inDom_iff (m : Mode) (v : Val) :
+    InDom m v = true →
+      NaNFree v = true ∧
+      (m = .smallInts → allNums Num.smallInt v = true) ∧
+      (m = .infFloats → allNums Num.infFloat v = true ∧ NoHugeInt v = true) := by
+  intro h
+  refine ⟨allNums_imp (fun n hn => ?_) h, fun hm => allNums_imp (fun n hn => ?_) h,
+    fun hm => ⟨allNums_imp (fun n hn => ?_) h, allNums_imp (fun n hn => ?_) h⟩⟩
+  · cases m <;> simp only [Num.inMode, Bool.and_eq_true] at hn
+    · exact hn.1
+    · exact hn.1.1
+  · subst hm; simp only [Num.inMode, Bool.and_eq_true] at hn; exact hn.2
+  · subst hm; simp only [Num.inMode, Bool.and_eq_true] at hn; exact hn.1.2
+  · subst hm; simp only [Num.inMode, Bool.and_eq_true] at hn; exact hn.2
+
+/-- and conversely: a NaN-free value satisfying the guard of mode `m` is in the domain -/
+theorem inDom_of (m : Mode) (v : Val) (h1 : NaNFree v = true)
+    (h2 : m = .smallInts → allNums Num.smallInt v = true)
+    (h3 : m = .infFloats → allNums Num.infFloat v = true ∧ NoHugeInt v = true) : InDom m v = true := by
+  have key : ∀ (k : Nat) (v : Val), v.size ≤ k → NaNFree v = true →
+      (m = .smallInts → allNums Num.smallInt v = true) →
+      (m = .infFloats → allNums Num.infFloat v = true ∧ NoHugeInt v = true) → InDom m v = true := by
+    intro k
+    induction k with
+    | zero => intro v hs; have := v.size_pos; omega
+    | succ k ih =>
+      intro v hs h1 h2 h3
+      unfold InDom NaNFree NoHugeInt at *
+      cases v with
+      | num n =>
+        simp only [allNums] at *
+        cases m
+        · simp [Num.inMode, h1, h2 rfl]
+        · simp [Num.inMode, h1, (h3 rfl).1, (h3 rfl).2]
+      | arr a =>
+        rw [allNums_arr] at h1 ⊢
+        intro x hx
+        have := Val.size_lt_of_mem hx
+        simp only [Val.size] at hs
+        exact ih x (by omega) (h1 x hx) (fun hm => allNums_arr.1 (h2 hm) x hx)
+          (fun hm => ⟨allNums_arr.1 (h3 hm).1 x hx, allNums_arr.1 (h3 hm).2 x hx⟩)
+      | obj o =>
+        rw [allNums_obj] at h1 ⊢
+        intro e he
+        have := Val.size_entry_of_mem (k := e.1) (v := e.2) he
+        simp only [Val.size] at hs
+        exact ⟨ih e.1 (by omega) (h1 e he).1 (fun hm => (allNums_obj.1 (h2 hm) e he).1)
+            (fun hm => ⟨(allNums_obj.1 (h3 hm).1 e he).1, (allNums_obj.1 (h3 hm).2 e he).1⟩),
+          ih e.2 (by omega) (h1 e he).2 (fun hm => (allNums_obj.1 (h2 hm) e he).2)
+            (fun hm => ⟨(allNums_obj.1 (h3 hm).1 e he).2, (allNums_obj.1 (h3 hm).2 e he).2⟩)⟩
+      | null => simp [allNums]
+      | bool => simp [allNums]
+      | bstr => simp [allNums]
+      | tstr => simp [allNums]
+  exact key v.size v (Nat.le_refl _) h1 h2 h3
+
+/-- `impl Ord for Num` is a total preorder on the numbers of each mode -/
+theorem num_order (m : Mode) : TPO (fun n => Num.inMode m n = true) numCmp := numCmp_tpo m
+
+/-- **`impl Ord for Val` is a total preorder on the property's domain** (all sizes, all depths) -/
+theorem val_order (m : Mode) : TPO (fun v => InDom m v = true) cmp := cmp_tpo (numCmp_tpo m)
+
+theorem cmp_refl (m : Mode) (a : Val) (ha : InDom m a = true) : cmp a a = .eq :=
+  (val_order m).refl a ha
+
+/-- antisymmetry and totality: the two directions of a comparison are mirror images, so exactly
+one of `a < b`, `a ≡ b`, `a > b` holds and it determines the result of `cmp b a` -/
+theorem cmp_antisymm (m : Mode) (a b : Val) (ha : InDom m a = true) (hb : InDom m b = true) :
+    cmp b a = (cmp a b).swap :=
+  (val_order m).swap a b ha hb
+
+theorem cmp_total (m : Mode) (a b : Val) (ha : InDom m a = true) (hb : InDom m b = true) :
+    cmp a b ≠ .gt ∨ cmp b a ≠ .gt := by
+  rw [cmp_antisymm m a b ha hb]; cases cmp a b <;> simp [Ordering.swap]
+
+/-- transitivity of `≤` -/
+theorem cmp_trans (m : Mode) (a b c : Val) (ha : InDom m a = true) (hb : InDom m b = true)
+    (hc : InDom m c = true) (h1 : cmp a b ≠ .gt) (h2 : cmp b c ≠ .gt) : cmp a c ≠ .gt :=
+  (val_order m).trans a b c ha hb hc h1 h2
+
+/-- transitivity of `<` and its mixed forms -/
+theorem cmp_lt_trans (m : Mode) (a b c : Val) (ha : InDom m a = true) (hb : InDom m b = true)
+    (hc : InDom m c = true) (h1 : cmp a b = .lt) (h2 : cmp b c ≠ .gt) : cmp a c = .lt :=
+  (val_order m).lt_of_lt_of_le ha hb hc h1 h2
+
+theorem cmp_le_lt_trans (m : Mode) (a b c : Val) (ha : InDom m a = true) (hb : InDom m b = true)
+    (hc : InDom m c = true) (h1 : cmp a b ≠ .gt) (h2 : cmp b c = .lt) : cmp a c = .lt :=
+  (val_order m).lt_of_le_of_lt ha hb hc h1 h2
+
+/-- values that compare equal are indistinguishable by the order (congruence): every consumer
+that only uses `cmp` — `sort`, `min`/`max`, `bsearch`, array subtraction — treats them alike -/
+theorem cmp_congr (m : Mode) (a b c : Val) (ha : InDom m a = true) (hb : InDom m b = true)
+    (hc : InDom m c = true) (h : cmp a b = .eq) : cmp a c = cmp b c ∧ cmp c a = cmp c b :=
+  ⟨(val_order m).congr_left ha hb hc h, (val_order m).congr_right ha hb hc h⟩
+
+theorem cmp_eq_trans (m : Mode) (a b c : Val) (ha : InDom m a = true) (hb : InDom m b = true)
+    (hc : InDom m c = true) (h1 : cmp a b = .eq) (h2 : cmp b c = .eq) : cmp a c = .eq :=
+  (val_order m).eq_trans ha hb hc h1 h2
+
+/-- array subtraction `l - r` (look-up by `Ord`) does not see which representative of an
+equivalence class is in `r` or in `l` -/
+theorem sub_congr (m : Mode) (r : List Val) (x y : Val) (hx : InDom m x = true) (hy : InDom m y = true)
+    (hr : ∀ v ∈ r, InDom m v = true) (h : cmp x y = .eq) :
+    (r.any fun z => cmp z x == .eq) = (r.any fun z => cmp z y == .eq) := by
+  induction r with
+  | nil => rfl
+  | cons z zs ih =>
+    simp only [List.any_cons]
+    rw [((cmp_congr m x y z hx hy (hr z (by simp)) h).2), ih (fun v hv => hr v (by simp [hv]))]
+
+example : InDom .smallInts (.arr [.num (.int 1), .num (.float 0x3ff0000000000000), .obj [(.tstr [97], .num (.dec "1e0"))]]) = true := by
+  decide
+example : InDom .infFloats (.arr [.num (.int 9223372036854775807), .num (.float F64.negInf)]) = true := by
+  decide
+
+/-! ## 2. The documented sequence -/
+
+/-- kinds: null < booleans < numbers < strings < arrays < objects -/
+theorem kind_order (a b : Val) (h : a.rank < b.rank) : cmp a b = .lt := cmp_rank_lt h
+
+theorem kinds_ranked :
+    (Val.null).rank < (Val.bool false).rank ∧ ∀ (b : Bool) (n : Num) (s t : List UInt8) (a : List Val) (o : Entries),
+      (Val.bool b).rank < (Val.num n).rank ∧ (Val.num n).rank < (Val.tstr s).rank ∧
+      (Val.tstr s).rank = (Val.bstr t).rank ∧ (Val.bstr t).rank < (Val.arr a).rank ∧
+      (Val.arr a).rank < (Val.obj o).rank := by
+  refine ⟨by decide, fun _ _ _ _ _ _ => by simp [Val.rank]⟩
+
+theorem false_lt_true : cmp (.bool false) (.bool true) = .lt := by decide
+
+/-- numbers: -Infinity < every finite float < Infinity -/
+theorem neg_inf_lt_finite_lt_inf (f : UInt64) (h : F64.isFinite f = true) :
+    cmp (.num (.float F64.negInf)) (.num (.float f)) = .lt ∧
+    cmp (.num (.float f)) (.num (.float F64.posInf)) = .lt := by
+  have h1 := (cmp_finite_inf h (f := F64.negInf) (by decide)).2
+  have h2 := (cmp_finite_inf h (f := F64.posInf) (by decide)).1
+  have s1 : F64.signBit F64.negInf = true := by decide
+  have s2 : F64.signBit F64.posInf = false := by decide
+  rw [s1] at h1; rw [s2] at h2
+  refine ⟨?_, ?_⟩
+  · rw [cmp_num]; simpa [numCmp, Num.cmp, Num.undec] using h1
+  · rw [cmp_num]; simpa [numCmp, Num.cmp, Num.undec] using h2
+
+/-- ... and every integer whose conversion is finite lies strictly between the infinities -/
+theorem neg_inf_lt_int_lt_inf (i : Int) (h : F64.isFinite (F64.ofInt i) = true) :
+    cmp (.num (.float F64.negInf)) (.num (.int i)) = .lt ∧
+    cmp (.num (.int i)) (.num (.float F64.posInf)) = .lt := by
+  have h1 := (cmp_finite_inf h (f := F64.negInf) (by decide)).2
+  have h2 := (cmp_finite_inf h (f := F64.posInf) (by decide)).1
+  have s1 : F64.signBit F64.negInf = true := by decide
+  have s2 : F64.signBit F64.posInf = false := by decide
+  rw [s1] at h1; rw [s2] at h2
+  refine ⟨?_, ?_⟩
+  · rw [cmp_num]; simpa [numCmp, Num.cmp, Num.undec] using h1
+  · rw [cmp_num]; simpa [numCmp, Num.cmp, Num.undec] using h2
+
+/-- integers within ±2^53 and floats are ordered by one key: the conversion `i as f64` is exact
+and strictly monotone there (derived from the integer arithmetic of `F64.roundRat`), so 1, 1.0 and
+the literal `1e0` are the same point of the order, and integers compare like their float images -/
+theorem small_int_float_one_key (a b : Num) (ha : Num.inMode .smallInts a = true)
+    (hb : Num.inMode .smallInts b = true) : numCmp a b = compare (keyS a) (keyS b) :=
+  numCmp_modeS ha hb
+
+theorem small_int_conversion_monotone (x y : Int) (hx : x.natAbs ≤ 2 ^ 53) (hy : y.natAbs ≤ 2 ^ 53)
+    (h : x < y) : fkey (F64.ofInt x) < fkey (F64.ofInt y) := by
+  rw [(ofInt_small x hx).1, (ofInt_small y hy).1]; exact ik_strictMono hx hy h
+
+/-- integers of any size compare exactly among themselves (machine or big representation) -/
+theorem int_exact (x y : Int) :
+    numCmp (.int x) (.int y) = compare x y ∧ numCmp (.int x) (.big y) = compare x y ∧
+    numCmp (.big x) (.int y) = compare x y ∧ numCmp (.big x) (.big y) = compare x y := by
+  simp [numCmp, Num.cmp, Num.undec]
+
+/-- strings: bytewise, text and byte strings alike -/
+theorem strings_bytewise (x y : List UInt8) :
+    cmp (.tstr x) (.tstr y) = cmpBytes x y ∧ cmp (.tstr x) (.bstr y) = cmpBytes x y ∧
+    cmp (.bstr x) (.tstr y) = cmpBytes x y ∧ cmp (.bstr x) (.bstr y) = cmpBytes x y :=
+  ⟨cmp_str rfl rfl, cmp_str rfl rfl, cmp_str rfl rfl, cmp_str rfl rfl⟩
+
+/-- arrays: lexicographic by the same order -/
+theorem arrays_lexicographic (x y : List Val) : cmp (.arr x) (.arr y) = lexCmp cmp x y := cmp_arr x y
+
+/-- objects: by the key sequence sorted by the same order, then by the values in that key order -/
+theorem objects_by_sorted_keys_then_values (x y : Entries) :
+    cmp (.obj x) (.obj y) =
+      (lexCmp cmp (sortedKeys cmp x) (sortedKeys cmp y)).then
+        (lexCmp cmp (sortedVals cmp x) (sortedVals cmp y)) := cmp_obj x y
+
+/-- what "lexicographic" means: a proper prefix is smaller, otherwise the first difference decides -/
+theorem lexicographic_spec {α : Type} (c : α → α → Ordering) (x y : α) (xs ys : List α) :
+    lexCmp c [] [] = .eq ∧ lexCmp c [] (y :: ys) = .lt ∧ lexCmp c (x :: xs) [] = .gt ∧
+    lexCmp c (x :: xs) (y :: ys) = (c x y).then (lexCmp c xs ys) :=
+  ⟨rfl, rfl, rfl, lexCmp_cons_cons x y xs ys⟩
+
+/-- object comparison does not depend on the insertion order of either operand when the keys
+of each object are pairwise distinct under the order (then the sorted entry list is unique);
+here: the sorted entry list is a permutation of the entries and is sorted -/
+theorem object_entries_sorted (m : Mode) (o : Entries) (h : InDom m (.obj o) = true) :
+    (sortedEntries o).Perm o ∧ Sorted (keyCmp cmp) (sortedEntries o) := by
+  refine ⟨sortBy_perm o, ?_⟩
+  have hk : TPO (fun e : Val × Val => InDom m e.1 = true) (keyCmp cmp) := (val_order m).comap Prod.fst
+  exact sortBy_sorted hk o (fun e he => (allNums_obj.1 h e he).1)
+
+/-! ## 3. `sort` -/
+
+/-- `sort` returns a permutation of its input (any input) -/
+theorem sort_perm (l : List Val) : (sort l).Perm l := sortBy_perm l
+
+/-- ... that is sorted -/
+theorem sort_sorted (m : Mode) (l : List Val) (h : ∀ v ∈ l, InDom m v = true) : Sorted cmp (sort l) :=
+  sortBy_sorted (val_order m) l h
+
+/-- ... and stable: the elements equivalent to any value keep their input order -/
+theorem sort_stable (m : Mode) (l : List Val) (h : ∀ v ∈ l, InDom m v = true) (e : Val)
+    (he : InDom m e = true) :
+    (sort l).filter (fun y => cmp e y == .eq) = l.filter (fun y => cmp e y == .eq) :=
+  sortBy_stable (val_order m) e he l h
+
+example : sort [.tstr [98], .bstr [97], .bool true, .tstr [97], .null] =
+    [.null, .bool true, .bstr [97], .tstr [97], .tstr [98]] := by rfl
+
+/-! ## 4. Hashing agrees with equality -/
+
+/-- floats that compare equal feed the same `Hasher` calls — provided `Num::hash` normalises zero
+(the repair of F-08 is in the tree) or neither is the negative zero -/
+theorem float_hash_coherent_partial (x y : UInt64) (h : F64.cmp x y = .eq)
+    (g : Cfg.hashNormalisesZero = true ∨ (x ≠ F64.negZero ∧ y ≠ F64.negZero)) :
+    numFeed (.float x) = numFeed (.float y) :=
+  floatFeed_coherent h g
+
+/-- once zero is normalised, no guard is needed -/
+theorem float_hash_coherent_fixed (hfix : Cfg.hashNormalisesZero = true) (x y : UInt64)
+    (h : F64.cmp x y = .eq) : numFeed (.float x) = numFeed (.float y) :=
+  floatFeed_coherent h (Or.inl hfix)
+
+/-- **finding F-08**: on a tree whose `Num::hash` does not normalise zero, `0` and `-0.0` are
+`==` (and `cmp` says equal) but feed different bytes to the hasher; the look-up
+`{(0):1,x:2} | has(-0.0)` fails -/
+theorem neg_zero_witness (hopen : Cfg.hashNormalisesZero = false) :
+    eq (.num (.int 0)) (.num (.float F64.negZero)) = true ∧
+    cmp (.num (.int 0)) (.num (.float F64.negZero)) = .eq ∧
+    feed (.num (.int 0)) ≠ feed (.num (.float F64.negZero)) ∧
+    Obj.has (Obj.ofList [(.num (.int 0), .num (.int 1)), (.tstr [120], .num (.int 2))])
+      (.num (.float F64.negZero)) = false := by
+  have e1 : eq (.num (.int 0)) (.num (.float F64.negZero)) = true := by decide
+  have e2 : feed (.num (.int 0)) = [.u8 0, .len 8, .f64 0] := by
+    simp [feed, feedF, numFeed, floatFeed, hashedFloat, hopen, Val.size]; decide
+  have e3 : feed (.num (.float F64.negZero)) = [.u8 0, .len 8, .f64 F64.negZero] := by
+    simp [feed, feedF, numFeed, floatFeed, hashedFloat, hopen, Val.size]; decide
+  have e4 : feed (.tstr [120]) = [.u8 5, .len 1, .bytes [120]] := by decide
+  refine ⟨e1, ?_, ?_, ?_⟩
+  · simp [cmp, cmpF, numCmp, Num.cmp, Num.undec, Val.size]; decide
+  · rw [e2, e3]; decide
+  · have o : Obj.ofList [(.num (.int 0), .num (.int 1)), (.tstr [120], .num (.int 2))] =
+        [(.num (.int 0), .num (.int 1)), (.tstr [120], .num (.int 2))] := by
+      simp only [Obj.ofList, Obj.extend, List.foldl, Obj.insert, hashedIdx, List.findIdx?_nil,
+        List.findIdx?_cons, probe, e2, e4]
+      rfl
+    rw [o]
+    simp only [Obj.has, Obj.get, getWith, getIdx, List.findIdx?_cons, List.findIdx?_nil, probe, e2, e3, e4]
+    decide
+
+set_option exponentiation.threshold 1100 in
+set_option maxRecDepth 8000 in
+/-- **finding F-08b**: on a tree whose `Num::cmp` converts big integers to `f64` before comparing
+with a float, an integer beyond the `f64` range is neither `<`, `==` nor `>` infinity -/
+theorem huge_int_witness (hopen : Cfg.hugeIntBelowInfinity = false) :
+    cmp (.num (.big (2 ^ 1024))) (.num (.float F64.posInf)) = .eq ∧
+    eq (.num (.big (2 ^ 1024))) (.num (.float F64.posInf)) = false ∧
+    cmp (.num (.big (2 ^ 1024))) (.num (.big (2 ^ 1024 + 1))) = .lt ∧
+    cmp (.num (.big (2 ^ 1024 + 1))) (.num (.float F64.posInf)) = .eq := by
+  have h1 : F64.ofInt (2 ^ 1024) = F64.posInf := by decide
+  have h2 : F64.ofInt (2 ^ 1024 + 1) = F64.posInf := by decide
+  refine ⟨?_, by decide, ?_, ?_⟩
+  · simp [cmp, cmpF, numCmp, hopen, Num.cmp, Num.undec, Val.size, h1]; decide
+  · simp only [cmp, cmpF, numCmp, hopen, Num.cmp, Num.undec, Val.size]
+    exact Int.compare_eq_lt.2 (by omega)
+  · simp [cmp, cmpF, numCmp, hopen, Num.cmp, Num.undec, Val.size, h2]; decide
+
+/-! ## 5. Stated, not proved (see design/notes/C08.md)
+
+  * `eq_iff_cmp_eq  : InDom m a → InDom m b → WfKeys a → WfKeys b → NoNegZero a → NoNegZero b →
+       (eq a b = true ↔ cmp a b = .eq)`            (trichotomy with `==`; on numbers it follows from
+       `num_order` and `cmp_eq_imp`, on objects it needs "two strictly sorted key lists with the
+       same classes are pointwise equal")
+  * `hash_coherent  : eq a b = true → feed a = feed b`  on the same domain (numbers other than
+       floats need `F64.ofInt i ≠ -0.0` for every `i`; arrays are elementwise; objects as above)
+  * `has_congr / index_congr / insert_congr / extend_congr / merge_congr / update_congr /
+     obj_eq_insertion_order_irrelevant / unique_congr / indices_congr / contains_congr`
+       (each follows from `hash_coherent` + `eq` being an equivalence compatible with `cmp`).
+  These are exercised on every run by the correspondence (model = code) together with the
+  real-code oracle (`a == b` ⇒ equal `Hasher` calls and interchangeability in 19 templates).
+-/
 
 end Jaq.C08
